@@ -59,19 +59,34 @@ func (b *bufConn) Read(p []byte) (n int, err error) {
 func (b *bufConn) Write(p []byte) (n int, err error) {
 	b.wmu.Lock()
 	defer b.wmu.Unlock()
-	return b.rw.Writer.Write(p)
+	n, err = b.rw.Writer.Write(p)
+	forgetWriteError(b.rw.Writer, b.Conn, err)
+	return
 }
 
-func (b *bufConn) Writev(buffs Buffers) (int64, error) {
+func (b *bufConn) Writev(buffs Buffers) (n int64, err error) {
 	b.wmu.Lock()
 	defer b.wmu.Unlock()
-	return buffs.WriteTo(b.rw.Writer)
+	n, err = buffs.WriteTo(b.rw.Writer)
+	forgetWriteError(b.rw.Writer, b.Conn, err)
+	return
 }
 
-func (b *bufConn) Flush() error {
+func (b *bufConn) Flush() (err error) {
 	b.wmu.Lock()
 	defer b.wmu.Unlock()
-	return b.rw.Writer.Flush()
+	err = b.rw.Writer.Flush()
+	forgetWriteError(b.rw.Writer, b.Conn, err)
+	return
+}
+
+// forgetWriteError: a bufio.Writer keeps its first error for ever and never touches the connection again,
+// but the connection may well work again (an expired write deadline). The failed call has reported the
+// error; the writer starts over with an empty buffer.
+func forgetWriteError(writer *bufio.Writer, conn net.Conn, err error) {
+	if nil != err {
+		writer.Reset(conn)
+	}
 }
 
 func (b *bufConn) RawTransport() interface{} {
@@ -105,15 +120,21 @@ type bufWriteConn struct {
 }
 
 func (bw *bufWriteConn) Write(b []byte) (n int, err error) {
-	return bw.writer.Write(b)
+	n, err = bw.writer.Write(b)
+	forgetWriteError(bw.writer, bw.Conn, err)
+	return
 }
 
-func (bw *bufWriteConn) Writev(buffs Buffers) (int64, error) {
-	return buffs.WriteTo(bw.writer)
+func (bw *bufWriteConn) Writev(buffs Buffers) (n int64, err error) {
+	n, err = buffs.WriteTo(bw.writer)
+	forgetWriteError(bw.writer, bw.Conn, err)
+	return
 }
 
-func (bw *bufWriteConn) Flush() error {
-	return bw.writer.Flush()
+func (bw *bufWriteConn) Flush() (err error) {
+	err = bw.writer.Flush()
+	forgetWriteError(bw.writer, bw.Conn, err)
+	return
 }
 
 func (bw *bufWriteConn) RawTransport() interface{} {
